@@ -11,8 +11,12 @@ def parseSteps (s : String) : List TStep :=
     else if t.startsWith "D" then rest.toNat?.map .delay
     else if t == "P" then some .panic
     else if t == "C" then some .cancelSelf
+    else if t == "N" then some .nest
     else if t.startsWith "R" then rest.toNat?.map .ret
     else none)
+
+def showNested (l : List (Nat × Bool)) : String :=
+  if l.isEmpty then "" else " nest=" ++ joinWith "," (l.map fun (t, ok) => s!"{t}:{if ok then "ok" else "rej"}")
 
 def stChar : PState → String
   | .running => "R" | .stopping => "S" | .stopped => "X"
@@ -52,7 +56,7 @@ def stepOp (d : D) (o io : String) : D :=
     | ["pass"] =>
       (match pass d.p with
        | none => (d.p, "started= err", "pass.err")
-       | some p' => (p', s!"started={joinWith "." ((p'.started.drop d.p.started.length).map toString)}",
+       | some p' => (p', s!"started={joinWith "." ((p'.started.drop d.p.started.length).map toString)}{showNested (p'.nested.drop d.p.nested.length)}",
                      if p'.dropped.length > d.p.dropped.length then "pass.drops-parked-cancel" else if p'.started.length > d.p.started.length then "pass.starts" else "pass.idle"))
     | ["adv", n] => ({ d.p with now := min U64MAX (d.p.now + n.toNat?.getD 0) }, "-", "adv")
     | ["cancel", k] =>
@@ -60,7 +64,7 @@ def stepOp (d : D) (o io : String) : D :=
       if k < d.p.progs.length ∧ (d.p.progs.getD k []) ≠ [] then
         (cancelTask d.p k, "-", if (d.p.runningTasks.any (·.1 == k)) then "cancel.parked" else if d.p.tasks.vals.contains k then "cancel.queued" else "cancel.other")
       else (d.p, "-", "cancel.none")
-    | ["stop"] => let r := stop d.p; (r.1, if r.2 then "ok" else "err", if r.2 then "stop.ok" else "stop.err")
+    | ["stop"] => let r := stop d.p; (r.1, (if r.2 then "ok" else "err") ++ showNested (r.1.nested.drop d.p.nested.length), if r.2 then "stop.ok" else "stop.err")
     | ["max", n] => ({ d.p with maxSize := n.toNat?.getD 1 }, "-", "max")
     | ["co"] => let r := submitCo d.p; (r.1, if r.2 then "ok" else "rejected", if r.2 then "co.ok" else "co.rejected")
     | ["nowait", k] =>
@@ -94,6 +98,9 @@ def stepOp (d : D) (o io : String) : D :=
   let f12 : List (String × String) :=
     (if rank ist < rank d.lastSt then [("C12", s!"[state-went-back] {d.lastSt} -> {ist} on `{o}`")] else []) ++
     (if (words o).head? == some "sub" ∧ d.lastSt ≠ "R" ∧ (words io).head? == some "ok" then [("C12", s!"[accepted-after-stop] `{o}` accepted in state {d.lastSt}")] else []) ++
+    (let inest := ((kvOf io "nest").splitOn ",").filter (·.endsWith ":ok")
+     if !inest.isEmpty ∧ ((words o).head? == some "stop" ∨ d.lastSt ≠ "R") then
+       [("C12", s!"[accepted-while-stopping] during `{o}` (pool state {if (words o).head? == some "stop" then "S" else d.lastSt}) a task's own submission was accepted: {inest}")] else []) ++
     (if (words o).head? == some "stop" ∧ (words io).head? == some "ok" ∧ (irun ≠ 0 ∨ ist ≠ "X") then [("C12", s!"[stop-ok-unfinished] stop reported success with running={irun} state={ist}")] else []) ++
     (if (words o).head? == some "stop" ∧ (words io).head? == some "ok" ∧ !(d.accepted.all (fun t => d.startedImpl.contains t ∨ d.cancelledQueued.contains t)) ∧ !parked
        then [("C12", s!"[stop-ok-task-not-run] stop reported success but accepted tasks {d.accepted.filter (fun t => !(d.startedImpl.contains t ∨ d.cancelledQueued.contains t))} never ran")] else [])
